@@ -6,7 +6,7 @@ From AhrsModel Require Import Effects.
 From AhrsGen Require Import C19effects.
 From AhrsProps Require Import C19_analysis.
 Import ListNotations.
-Open Scope string_scope.
+
 
 (* SOUNDNESS of the analysis (Effects.v), for any table of callables, any labelling of protected cells, any summaries
    that are valid: the analysis over-approximates aliasing (Inv), mutation (kept) and global-state use (gkept) of every
